@@ -295,8 +295,15 @@ fn check_case_inner<'a>(case: &'a Case, arena: &Arena<'a>) -> CaseResult {
             let mut sink = OwningIovec::new();
             if case.pairs.len() % 2 == 1 {
                 // Through the forwarding impls: `&mut Sink` as a sink, `&T` as a value.
-                let mut by_ref = &mut sink;
-                (&wrapper).to_rough_tlv(&mut by_ref);
+                // (a generic function instantiated at `&W` and `&mut S`: method syntax would auto-deref past the impls)
+                fn emit<'v, T: ToRoughTLV<'v>, S: ZeroCopySink<'v>>(value: T, mut sink: S) -> usize {
+                    value.to_rough_tlv(&mut sink);
+                    value.rough_tlv_len()
+                }
+                let claimed = emit(&wrapper, &mut sink);
+                if claimed != wrapper.rough_tlv_len() {
+                    return Err(Fail::new("len", "rough_tlv_len() through a reference differs".to_string()));
+                }
             } else {
                 wrapper.to_rough_tlv(&mut sink);
             }
